@@ -130,6 +130,9 @@ func devCmd(argv []string) {
 				fmt.Printf("       query of %s dumped to %s (other workers share /tmp: the name is per process)\n", o.Name, dp)
 			}
 		}
+		for _, n := range fr.VC.droppedInvs {
+			fmt.Println("  DROPPED:", n)
+		}
 		if *verbose {
 			for _, n := range fr.VC.notes {
 				fmt.Println("  note:", n)
